@@ -719,6 +719,20 @@ pub fn replay_c06(r: &Value) {
                 for j in 0..3 { run.bus.faults.push((first_tx + k + j, Fault::Garble)); }
                 while run.bus.tx_count <= first_tx + k + 2 && !run.done() { run.step(); }
             }
+            "soft_restart" => {
+                let t = job["t_us"].as_i64().unwrap();
+                let i = job["station"].as_u64().unwrap() as usize;
+                loop {
+                    let (pi, pt) = run.peek();
+                    if pt >= t && pi == i { break; }
+                    run.step();
+                }
+                run.stations[i].set_offline();
+                run.soft_restart[i] = true;
+                run.crashed[i] = true;
+                let d = job["d_slots"].as_i64().unwrap() * sc.slot_bits as i64 * 1_000_000 / BAUDS[sc.baud].1 as i64;
+                run.restart_at[i] = Some(t + d);
+            }
             _ => {
                 let t = job["t_us"].as_i64().unwrap();
                 let i = job["station"].as_u64().unwrap() as usize;
@@ -1389,6 +1403,19 @@ pub fn run_c06(tier: Tier) -> ! {
                 let t_fault = if variant >= 2 { run.restart_at[*i].unwrap() } else { *t };
                 c06_finish(&mut run, sc, t_fault, &format!("crash of #{} at t={}us variant {}", sc.addrs[*i], t, variant), &tally, json!({"kind":"crash","station": i, "t_us": t, "variant": variant, "partial": partial}));
             }
+            // the user takes the station down with set_offline() before this poll and brings THE SAME station
+            // object back with set_online() 40 (thorough: also 2) slot times later — what a restart through the
+            // API leaves behind in the station is part of the history (found by a seeded change)
+            for d_slots in tier.pick(vec![40i64], vec![2, 40]) {
+                let mut run = snap.clone();
+                run.stations[*i].set_offline();
+                run.soft_restart[*i] = true;
+                run.crashed[*i] = true;
+                let d = d_slots * sc.slot_bits as i64 * 1_000_000 / BAUDS[sc.baud].1 as i64;
+                run.restart_at[*i] = Some(*t + d);
+                c06_finish(&mut run, sc, *t + d, &format!("set_offline() of #{} at t={}us, set_online() {} slot times later", sc.addrs[*i], t, d_slots), &tally, json!({"kind":"soft_restart","station": i, "t_us": t, "d_slots": d_slots}));
+                ctx().witness("c06_soft_restart");
+            }
         });
         // a crash (station gone for good, before its poll) FOLLOWED by a telegram fault: one of the next eight
         // telegrams of the survivors is dropped or cut to 1 or 2 bytes while they are sorting the ring out
@@ -1452,7 +1479,7 @@ pub fn run_c06(tier: Tier) -> ! {
     let outcomes = tally.outcomes.lock().unwrap().clone();
     ev.distinct_outcomes = outcomes.len() as u64;
     ev.extra.insert("outcomes".into(), json!(outcomes));
-    ev.required_witnesses = vec!["c06_recovered", "c06_partial_telegram_left_on_bus"];
+    ev.required_witnesses = vec!["c06_recovered", "c06_partial_telegram_left_on_bus", "c06_soft_restart"];
     ev.assumptions.push("collisions are modelled as corrupted bytes for everybody who listens; both PHY models are run: a transmitting station hears the colliding bytes corrupted / does not hear them at all; a station that took itself offline after two address-collision observations is not 'online'".into());
     finish(ev)
 }
